@@ -676,6 +676,9 @@ func (e *Explorer) Run(name string, run func()) {
 					case abortPath:
 						e.Aborted[r.reason]++
 					case targetPanic:
+						if e.Verbose && e.Aborted["panic: "+toString(r.v)] == 0 {
+							fmt.Printf("TARGET PANIC: %v\n%s\n", toString(r.v), e.PanicStack)
+						}
 						e.Aborted["panic: "+toString(r.v)]++
 					default:
 						msg := fmt.Sprintf("interp: %v", r)
